@@ -18,9 +18,13 @@ mod c10;
 mod c11;
 mod c12;
 mod c13;
+mod c14;
+mod c15;
+mod layers;
 mod c16;
 mod c17;
 mod c18;
+mod c19;
 mod gens;
 mod cmp;
 mod exec;
@@ -37,6 +41,9 @@ use std::time::Instant;
 fn dispatch_for(id: &str) -> Option<fn(&str, &serde_json::Value) -> Option<Outcome>> {
     Some(match id {
         "C04" => c04::dispatch,
+        "C19" => c19::dispatch,
+        "C14" => c14::dispatch,
+        "C15" => c15::dispatch,
         "C08" => c08::dispatch,
         "C09" => c09::dispatch,
         "C18" => c18::dispatch,
@@ -59,6 +66,9 @@ fn dispatch_for(id: &str) -> Option<fn(&str, &serde_json::Value) -> Option<Outco
 fn run_check(ctx: &Ctx) -> i32 {
     match ctx.property.as_str() {
         "C04" => c04::run(ctx),
+        "C19" => c19::run(ctx),
+        "C14" => c14::run(ctx),
+        "C15" => c15::run(ctx),
         "C08" => c08::run(ctx),
         "C09" => c09::run(ctx),
         "C18" => c18::run(ctx),
